@@ -181,19 +181,24 @@ PALETTE2 = [(0.5, 0, 0.5, 1), (1, 1, 0, 1), (0.2, 0.2, 0.2, 1), (0, 0, 0, 1)]
 
 
 def build_case_font(case):
-    glyphs = OrderedDict([(".notdef", ([[(50, 0), (50, 700), (450, 700), (450, 0)]], None)), ("space", ([], None))])
+    glyphs = OrderedDict([(".notdef", ([[(50, 0), (50, 700), (450, 700), (450, 0)]], None))])
+    if not case.get("no_space"):
+        glyphs["space"] = ([], None)
     for n, g in OUTLINES.items():
         glyphs[n] = g
     glyphs["comp"] = ([], [("tri", tuple(case["comp"])), ("sq", (1, 0, 0, 1, 300, -150))])
     for n in case["paints"]:
-        glyphs[n] = ([], None)
-    cmap = {0x20: "space"}
+        # "own_outline": the base glyph carries an outline and is its own (first) layer, as in many hand-made COLR fonts
+        glyphs[n] = OUTLINES["sq"] if case.get("own_outline") and n == "c0" else ([], None)
+    cmap = {} if case.get("no_space") else {0x20: "space"}
     for i, n in enumerate(case["paints"]):
         cmap[0xE000 + i] = n
     pals = [PALETTE, PALETTE2, list(reversed(PALETTE[:3])) + [PALETTE[3]]][: case["npal"]]
     paints = {k: _tuplify(p) for k, p in case["paints"].items()}
     adv = dict(case["advs"])
-    adv.update({"sq": 1000, "tri": 1000, "ring": 1000, "comp": 1000, "space": 300, ".notdef": 500})
+    adv.update({"sq": 1000, "tri": 1000, "ring": 1000, "comp": 1000, ".notdef": 500})
+    if not case.get("no_space"):
+        adv["space"] = 300
     return make_font(glyphs, cmap, advances=adv, colr=paints, colr_version=case["version"], palettes=pals)
 
 
